@@ -118,7 +118,8 @@ TMutateEnd ==
 
 TCommit ==
     /\ IsEvent("Commit")
-    /\ LET o == [batch |-> ToRecs(Ev.batch), histLen |-> Ev.histLen, keyLens |-> Ev.keyLens, prefixSame |-> Ev.prefixSame] IN
+    /\ LET o == [batch |-> ToRecs(Ev.batch), histLen |-> Ev.histLen, keyLens |-> Ev.keyLens, prefixSame |-> Ev.prefixSame,
+                 blobsOK |-> Ev.blobsOK] IN
        /\ CommitU(o)
        /\ Step(Failing(PcOk(pc = "mutated") @@ CM_Clauses(o)))
 
